@@ -856,7 +856,7 @@ def compile_comprehension(compiler, expr, root, parts, final):
                         asty.ListComp: "[]",
                         asty.DictComp: "{}",
                         asty.SetComp: "{1}.__class__()",
-                        asty.GeneratorExp: "(_ for _ in [])",
+                        asty.GeneratorExp: "(_hy_anon for _hy_anon in [])",
                     }[node_class],
                 )
                 .body[0]
